@@ -627,6 +627,20 @@ def run(ctx):
             "oracle_checks": 0, "updates_with_cursor_painted": 0, "client_format": {}, "midstream_failure_scripts": 0,
             "explained_by_known_defect": {}}
     scripts = []
+    # known defect "copyregion-null-cursor" (rfbScheduleCopyRegion dereferences a NULL screen->cursor):
+    # its witness is replayed with the corpus; while the tree still has it, the generated scripts
+    # do not combine "no cursor" with scheduled copies (exclude predicate), everything else is explored
+    wit = os.path.join(common.VERIF, "corpus", "C15", "copyregion-null-cursor.ops")
+    nullcur_defect = False
+    if os.path.exists(wit):
+        rcw, _, _ = ctx.run_lines(h, open(wit).read(), timeout=120)
+        nullcur_defect = rcw != 0
+    dist["tree_has_copyregion_null_cursor_defect"] = nullcur_defect
+
+    def excl(sc):
+        if nullcur_defect and "cursor none" in sc and "\ncopy " in sc:
+            return sc.replace("cursor none", "cursor x 1 1 0 0 00 00 0 0 0 0 0 0")
+        return sc
     if ctx.replay:
         rec = json.load(open(ctx.replay))
         scripts = [("replay", "\n".join(rec.get("script", [])) + "\n", True)]
@@ -634,16 +648,16 @@ def run(ctx):
         for name, sc in load_corpus():
             scripts.append(("corpus:" + name, sc, True))
         for sc in matrix_scripts(ctx.rng):
-            scripts.append(("matrix", sc, True))
+            scripts.append(("matrix", excl(sc), True))
         n = 350 if ctx.tier == "quick" else 15000
         for k in range(n):
-            scripts.append(("gen", gen_script(ctx.rng), True))
+            scripts.append(("gen", excl(gen_script(ctx.rng)), True))
         for k in range(8 if ctx.tier == "quick" else 300):
-            scripts.append(("gen-big", gen_script(ctx.rng, big=True), True))
+            scripts.append(("gen-big", excl(gen_script(ctx.rng, big=True)), True))
         # failure in the middle of the stream (2nd/3rd write): the number of writes of an update is
         # not modelled, so these are judged by the direct oracles only
         for k in range(20 if ctx.tier == "quick" else 600):
-            scripts.append(("gen-midfail", gen_script(ctx.rng, big=True, midfail=True), False))
+            scripts.append(("gen-midfail", excl(gen_script(ctx.rng, big=True, midfail=True)), False))
 
     def one(item):
         what, sc, with_model = item
@@ -662,6 +676,9 @@ def run(ctx):
             except Exception as e:      # the oracle must never hide a problem
                 o = "oracle raised %r" % (e,)
         explained = None
+        if f and f["kind"] == "crash" and "rfbScheduleCopyRegion" in str(f.get("detail")) and \
+                "null pointer of type 'struct rfbCursor'" in str(f.get("detail")):
+            explained = [FINDING_NULLCUR]
         if f and f["kind"] == "exact":
             # the repaired model disagrees: does the implementation behave exactly like the model of
             # the known-defective original?
